@@ -106,6 +106,7 @@ func (vm *vm) resume(ctx *execCtx) {
 	vm.tryStack = append(vm.tryStack, ctx.tryStack...)
 	vm.iterStack = append(vm.iterStack, ctx.iterStack...)
 	vm.refStack = append(vm.refStack, ctx.refStack...)
+	verifResumed(vm, ctx)
 }
 
 type iterStackItem struct {
@@ -383,6 +384,8 @@ type vm struct {
 	curAsyncRunner *asyncRunner
 
 	profTracker *profTracker
+
+	verif verifState
 }
 
 type instruction interface {
@@ -632,6 +635,7 @@ func (vm *vm) run() {
 		if pc < 0 || pc >= len(vm.prg.code) {
 			break
 		}
+		verifStep(vm)
 		vm.prg.code[pc].exec(vm)
 	}
 
@@ -665,6 +669,7 @@ func (vm *vm) runWithProfiler() bool {
 		if pc < 0 || pc >= len(vm.prg.code) {
 			break
 		}
+		verifStep(vm)
 		vm.prg.code[pc].exec(vm)
 		req := atomic.LoadInt32(&pt.req)
 		if req == profReqStop {
